@@ -41,7 +41,7 @@ RULE = (
     "concrete graph is additionally required to have its roots cover exactly the requested variables and to survive "
     "dump/load unchanged.  states = explored paths; distinct = (skeleton, mode, abstraction)."
 )
-BOUNDS = "hand skeletons with <= 7 leaves incl. malformed ones; algorithm outputs for <= 6 variables (images up to 1x2x3 / 2x1x2), depth <= 3, repetitions <= 3, seeds 0..5, delta in {1,2}, all labelled rooted trees with <= 4 nodes (sample of 5) for tree2rg; ids in [0,N) with N = #variables + 1 (mode any) or #variables (mode inj: all relabellings of up to 4 (quick) / 5 (thorough) of the variables, the others keep their ids); layer abstractions cp / cp-t / tucker / explicit; unit counts {1,2}x{1,2}x{1,3}"
+BOUNDS = "hand skeletons with <= 7 leaves incl. malformed ones; algorithm outputs for <= 6 variables (images up to 1x2x3 / 2x1x2), depth <= 2, repetitions <= 3, seeds 0..9 (thorough; 0..5 quick), delta in {1,2}, all labelled rooted trees with <= 4 nodes (sample of 5) for tree2rg; ids in [0,N) with N = #variables + 1 (mode any) or #variables (mode inj: all relabellings of up to 4 (quick) / 5 (thorough) of the variables, the others keep their ids); layer abstractions cp / cp-t / tucker / explicit; unit counts {1,2}x{1,2}x{1,3}"
 OUTSIDE = "the algorithms' own control flow is run on concrete arguments only (numpy random streams and integer-driven loops are not symbolic); Chow-Liu mutual-information numerics; is_compatible (numpy eigenvalues); larger graphs"
 ASSUMPTIONS = [
     "z3 bit-vector model of frozenset inside the real Scope (as C08)",
@@ -371,6 +371,23 @@ def _algos(tier):
         if _is_tree(parents):
             out.append({"algo": "tree", "parents": parents})
             k += 1
+    if tier != "quick":
+        # thorough: more seeds / repetitions / sizes for the randomised constructions
+        for n in (3, 4, 5, 6):
+            for rep in (1, 2, 3):
+                for seed in (2, 4, 5, 6, 7, 8, 9):
+                    out.append({"algo": "rbt", "nvars": n, "rep": rep, "rgseed": seed})
+                    out.append({"algo": "lt", "nvars": n, "rep": rep, "randomize": True, "rgseed": seed})
+        for n in (4, 5, 6):
+            for depth in (1, 2):
+                for seed in (0, 1, 2):
+                    out.append({"algo": "rbt", "nvars": n, "depth": depth, "rep": 2, "rgseed": seed})
+        for n in (6,):
+            out.append({"algo": "ff", "nvars": n, "rep": 3})
+            out.append({"algo": "lt", "nvars": n, "rep": 1})
+        for n in (3, 4, 5, 6):
+            for seed in range(4, 10):
+                out.append({"algo": "clt", "nvars": n, "rgseed": seed})
     for n in (3, 4, 5):
         for seed in (0, 1):
             out.append({"algo": "clt", "nvars": n, "rgseed": seed})
